@@ -587,3 +587,75 @@ def lattice_cases(part, parts, ell='grs80'):
                     continue
                 yield {'mode': 'geo', 'ell': ell, 'prj': 'utm', 'lat': float(lat), 'lon': float(lon), 'zone': mode,
                        'argt': 'float', 'api': 'geo2grid', 'kind': 'lattice'}
+
+
+# ---------------------------------------------------------------------------------------------
+# aliasing sequences: the same call repeated with exactly one configuration element changed.  A cache keyed on too
+# little (1/f without the semi-major axis, the ellipsoid without the projection, coordinates without the hemisphere ...)
+# answers the second call with the first call's constants; only such a *sequence* shows it.
+# ---------------------------------------------------------------------------------------------
+SAME_INVF = {'grs80': [6378135.0, 298.257222101], 'wgs84': [6378145.0, 298.257223563], 'ans': [6378145.0, 298.25],
+             'intl24': [6378270.0, 297.0]}
+
+
+def alias_ell(rnd, ell):
+    """another ellipsoid for the same call: same 1/f with a different semi-major axis, same a with a different 1/f, or
+    another shipped one"""
+    r = rnd.random()
+    a, invf = ell_published(ell)
+    if r < 0.45:
+        if isinstance(ell, str):
+            return SAME_INVF[ell]
+        return [a + rnd.choice([-1, 1]) * rnd.choice([100.0, 2500.0, 40000.0]), invf] if 6.3e6 <= a + 40000 <= 6.4e6 or True else ell
+    if r < 0.65:
+        return [a, min(400.0, max(150.0, invf + rnd.choice([-1, 1]) * rnd.choice([0.5, 3.0, 40.0])))]
+    return rnd.choice([e for e in SHIPPED_ELL if e != ell] or ['grs80'])
+
+
+def alias_geo_case(rnd, case):
+    c = dict(case)
+    r = rnd.random()
+    if r < 0.7:
+        c['ell'] = alias_ell(rnd, case['ell'])
+        a = c['ell'][0] if not isinstance(c['ell'], str) else 6378137.0
+        if not (6.3e6 <= a <= 6.4e6):
+            c['ell'] = alias_ell(rnd, 'grs80')
+    elif r < 0.85 and case['prj'] != 'isg':
+        # same ellipsoid, same position, another projection definition of the same zone layout
+        fe, fn, k0, zw, icm = prj_published(case['prj'])
+        c['prj'] = [fe + rnd.choice([0.0, 1000.0]), fn, rnd.choice([0.9999, 1.0, 0.9992]), zw, icm]
+    else:
+        c['argt'] = rnd.choice(ax.ARG_TYPES)
+    c['kind'] = 'alias'
+    c['api'] = 'geo2grid' if c.get('zone') else c.get('api', 'geo2grid')
+    return c
+
+
+def alias_grid_case(rnd, case):
+    c = dict(case)
+    r = rnd.random()
+    if r < 0.6:
+        c['ell'] = alias_ell(rnd, case['ell'])
+        a = c['ell'][0] if not isinstance(c['ell'], str) else 6378137.0
+        if not (6.3e6 <= a <= 6.4e6):
+            c['ell'] = alias_ell(rnd, 'grs80')
+    else:
+        # the same numbers in the other hemisphere (a different ground point; valid when inside the band)
+        c['hemi'] = 'north' if case['hemi'].lower() == 'south' else 'south'
+    c['kind'] = 'alias'
+    return c
+
+
+def near_axis_grid_case(rnd):
+    """grid coordinates a hair off the central meridian / the equator (not on them)"""
+    c = gen_grid_case(rnd)
+    fe, fn, k0, zw, icm = prj_published(c['prj'])
+    d = rnd.choice([1, -1]) * 10 ** rnd.uniform(-4, 0.5)
+    if rnd.random() < 0.7:
+        c['east'] = round(fe + d, 4)
+    else:
+        south = c['hemi'].lower() == 'south'
+        c['north'] = round((fn - abs(d)) if south else abs(d), 4)
+        c['north'] = min(max(c['north'], 0.0), 1e7)
+    c['kind'] = 'near-axis'
+    return c
